@@ -17,7 +17,7 @@ pub fn def() -> PropDef {
     PropDef {
         id: "C20",
         level: "exploration",
-        rule: "proptest tape -> (digest) a Block/Vote/Timeout/QC with arbitrary field values and one single-field edit among those C20 names (block: author, round, payload element/insert/remove/reorder, digest moved across the payload/parent boundary, two fields' values swapped, parent; vote/QC: block hash, round; timeout: round, high-QC round): digests must differ, and must equal the digest recomputed independently from the fields; crafted cross-kind attempts (vote/QC built from a timeout's or block's fields and vice versa): the three digest kinds never coincide. (roundtrip) validly signed messages of every kind (blocks with TC and >=2 payload digests included) through bincode alone and inside ConsensusMessage: same digest, verify still Ok, field-equal. (solo-store) a block processed by a real node is fetched back through SyncRequest and must be field-equal and still verify. Non-trivial: digest: every case (one named-field edit; distinct by base message+edit); roundtrip: block with TC or >=2 payload digests, or a certificate; solo-store: block with non-empty payload or TC fetched back.",
+        rule: "proptest tape -> (digest) a Block/Vote/Timeout/QC with arbitrary field values and one single-field edit among those C20 names (block: author, round, payload element/insert/remove/reorder, digest moved across the payload/parent boundary, two fields' values swapped, parent; vote/QC: block hash, round; timeout: round, high-QC round): digests must differ, and must equal the digest recomputed independently from the fields; certificates that compare equal (==) must agree in block and round; crafted cross-kind attempts (vote/QC built from a timeout's or block's fields and vice versa): the three digest kinds never coincide. (roundtrip) validly signed messages of every kind (blocks with TC and >=2 payload digests included) through bincode alone and inside ConsensusMessage: same digest, verify still Ok, field-equal. (solo-store) a block processed by a real node is fetched back through SyncRequest and must be field-equal and still verify. Non-trivial: digest: every case (one named-field edit; distinct by base message+edit); roundtrip: block with TC or >=2 payload digests, or a certificate; solo-store: block with non-empty payload or TC fetched back.",
         assumptions: &[
             "SHA-512 collisions are not searched for; inequality of digests is compared on generated pairs",
             "the embedded TC and the QC's vote list are not covered by the block digest (only author, round, payload, parent are named by the property)",
@@ -191,6 +191,14 @@ fn run_digest(case: &Case, _ctx: &Ctx) -> Outcome {
             } else {
                 let qa = QC { hash: hash.clone(), round, votes: Vec::new() };
                 let qb = QC { hash: h2.clone(), round: r2, votes: Vec::new() };
+                // identity: certificates that compare equal speak about the same block and round
+                // (the code decides "is this the genesis certificate" by comparing certificates)
+                if !same && qa == qb {
+                    out.violate(&format!("qc-equality-ignores-{}", what), format!("certificates differing in {} compare equal although their digests differ", what), json!({"edit": what, "round": round, "round2": r2}));
+                }
+                if !(qa == qa.clone()) {
+                    out.violate("qc-not-equal-to-itself", "a certificate does not compare equal to its copy".into(), json!({"round": round}));
+                }
                 (qa.digest(), qb.digest(), "qc")
             };
             let hist = json!({"kind": name, "edit": what, "round": round, "round2": r2});
